@@ -28,15 +28,29 @@ def slOp (cxx : Bool) (s : Sline) (tok : String) : Option (Sline × String) :=
       pure (r.1, slShow (toString r.2) r.1)
   | 'n' => do
       let d ← parseBytes? arg
+      if s.cap > 16777216 then
+        -- a buffer of which only the first bytes are materialised: the C-width function
+        let r := s.newdataC d d.length
+        pure (r.1, slShow (if cxx then "v" else toString r.2) r.1)
+      else
       let r := s.newdata d d.length
       pure (r.1, slShow (if cxx then "v" else toString r.2) r.1)
+  | 'Z' => do
+      -- Z<size>:<hex>  igris::sline::newdata(data, size_t size)
+      match arg.splitOn ":" with
+      | [ns, hx] => do
+        let n ← ns.toNat?
+        let d ← parseBytes? hx
+        let r := s.newdataSz d n
+        pure (r.1, slShow "v" r.1)
+      | _ => none
   | 'N' => do
       -- N<int>:<hex>  sline_newdata(data, len) with the int length as given
       match arg.splitOn ":" with
       | [ns, hx] => do
         let n ← ns.toInt?
         let d ← parseBytes? hx
-        let r := s.newdataI d n
+        let r := if s.cap > 16777216 then s.newdataC d n else s.newdataI d n
         pure (r.1, slShow (if cxx then "v" else toString r.2) r.1)
       | _ => none
   | 'c' => let r := s.clear; some (r, slShow "0" r)
@@ -155,6 +169,84 @@ def constsLine : String :=
   " ".intercalate ([RL_OVERFLOW, RL_NOTHING, RL_ECHOCHAR, RL_NEWLINE, RL_BACKSPACE, RL_DELETE, RL_UPDATELINE,
     RL_LEFT, RL_RIGHT].map toString)
 
+
+/-! ### round 3 -/
+
+def keyRec (r : Vterm × List Byte × List Ev) : String :=
+  toString r.1.rl.line.len ++ "," ++ toString r.1.rl.line.cursor ++ "," ++ bytesHex r.2.1 ++ "," ++ evsShow r.2.2
+
+/-- session script: k<hex> keys as unsigned bytes, c<hex> bytes through a `char`, i<int> a raw int16_t,
+I init step, P<hex> set_prompt, E0 / E1 set_echo -/
+def vsRun : Vterm → List String → Option (List String)
+  | _, [] => some []
+  | v, t :: ts =>
+    let arg := (t.drop 1).toString
+    let keysVia (f : Byte → Act) : Option (List String) := do
+      let ks ← parseBytes? arg
+      let rec go (v : Vterm) : List Byte → List String × Vterm
+        | [] => ([], v)
+        | c :: cs =>
+          let r := v.act (f c)
+          if r.1.rl.faulted then (["fault"], r.1) else
+          let t := go r.1 cs
+          (keyRec r :: t.1, t.2)
+      let (rs, v') := go v ks
+      if rs.getLast? = some "fault" then pure rs else
+      let rest ← vsRun v' ts
+      pure (rs ++ rest)
+    match t.front with
+    | 'k' => keysVia Act.key
+    | 'c' => keysVia (fun b => Act.keyI (sextChar b))
+    | 'i' => do
+        let i ← arg.toInt?
+        let r := v.act (.keyI i)
+        if r.1.rl.faulted then pure ["fault"] else
+        let rest ← vsRun r.1 ts
+        pure ((if i = -1 then "I" ++ bytesHex r.2.1 else keyRec r) :: rest)
+    | 'I' => do
+        let r := v.act .initStep
+        let rest ← vsRun r.1 ts
+        pure (("I" ++ bytesHex r.2.1) :: rest)
+    | 'P' => do
+        let p ← parseBytes? arg
+        let rest ← vsRun (v.act (.setPrompt p)).1 ts
+        pure ("=" :: rest)
+    | 'E' => do
+        let rest ← vsRun (v.act (.setEcho (arg ≠ "0"))).1 ts
+        pure ("=" :: rest)
+    | _ => none
+
+def wShow (w : WScreen) : String :=
+  toString w.above.length ++ "," ++ toString w.col ++ "," ++ (if w.pending then "1" else "0") ++ "," ++ bytesHex w.cells
+
+/-- W-column terminal fed with the echo of every key -/
+def vwRun (W : Nat) : Vterm → WScreen → List Byte → List String
+  | _, _, [] => []
+  | v, w, c :: cs =>
+    let r := v.key c
+    if r.1.rl.faulted then ["fault"] else
+    let w' := WScreen.feed W w r.2.1
+    wShow w' :: vwRun W r.1 w' cs
+
+/-- what the model embeds about the C types and constants (op `consts2`): sizeof of
+sline.cap / len / cursor, readline.state / last / lastsize / history_size / headhist / curhist,
+vterm.state / echo, the int16_t parameter; VTERM_INIT_STEP; READLINE_STATE_*; `char` is signed;
+the same three C++ indices; bytes vt100_left needs for INT_MAX (buffer: 16) -/
+def consts2Line : String :=
+  "4 4 4 4 1 4 4 4 4 4 1 2 -1 0 1 2 3 1 4 4 " ++ toString (vt100Left 2147483647).length
+
+/-- the session the harness runs BEFORE main() (static object with init_priority(101)) -/
+def premainKeys : List Byte := [0x61, 0x62, CR, ESC, 0x5b, 0x41, 0x63, ESC, 0x5b, 0x44, 0x64, LF, 0x03, ESC, 0x5b, 0x41, ESC, 0x5b, 0x41, CR]
+
+def lcgAlpha : Array Byte := #[0x61, 0x62, BS, CR, LF, ESC, 0x5b, 0x41, 0x42, 0x43, 0x44, 0x33, 0x7e, ETX, 0x78]
+
+/-- the key generator of op `vl` (same LCG as in harness/C15.cpp) -/
+def lcgKeys : Nat → Nat → List Byte → List Byte
+  | 0, _, acc => acc.reverse
+  | n + 1, st, acc =>
+    let st' := (st * 1103515245 + 12345) % 2147483648
+    lcgKeys n st' (lcgAlpha.getD ((st' / 65536) % 15) 0x61 :: acc)
+
 def stepLine (_ : Unit) (line : String) : Unit × String :=
   let r : Option String :=
     match words line with
@@ -163,7 +255,9 @@ def stepLine (_ : Unit) (line : String) : Unit × String :=
     | "sl" :: var :: cap :: ops => do
         let cxx ← variant? var
         let cap ← cap.toNat?
-        let rs ← slRun cxx (Sline.init cap) ops
+        -- a buffer of 2^24 bytes and more: only its first 64 bytes are materialised (the ops keep the line short)
+        let s0 : Sline := if cap > 16777216 then ⟨List.replicate 64 0, cap, 0, 0, false⟩ else Sline.init cap
+        let rs ← slRun cxx s0 ops
         pure (if rs.isEmpty then "-" else " ".intercalate rs)
     | ["rl", var, cap, depth, keys] => do
         let cxx ← variant? var
@@ -173,7 +267,9 @@ def stepLine (_ : Unit) (line : String) : Unit × String :=
         let (rs, rl) := rlRun (Readline.init cap depth) ks
         let tail := if cxx ∨ rl.faulted then "" else
           " H" ++ toString rl.headhist ++ "," ++ toString rl.curhist ++ "," ++ toString (rstateNum rl.state) ++ "," ++
-            bytesHex rl.hist
+            (if rl.hist.isEmpty then "-" else
+              ".".intercalate ((List.range rl.hsize).map fun i =>
+                bytesHex (((rl.hist.drop (i * cap)).take cap).takeWhile (· ≠ 0))))
         pure (" ".intercalate rs ++ tail)
     | ["lc", var, cap, depth, maxlen, keys] => do
         -- keys through readline_putchar, then readline_linecpy into a destination of exactly maxlen bytes (0xAA)
@@ -204,6 +300,61 @@ def stepLine (_ : Unit) (line : String) : Unit × String :=
         let r := tokRun i.1 (fnvBytes 0xcbf29ce484222325 i.2) ks
         let w := walk al L r.1 (r.2, 0)
         pure (toString w.2 ++ " " ++ hexOfNat 16 w.1.toNat)
+    | "vs" :: var :: cap :: depth :: toks => do
+        let cxx ← variant? var
+        let cap ← cap.toNat?
+        let depth ← depth.toNat?
+        let rs ← vsRun (Vterm.init cap depth cxx) toks
+        pure (if rs.isEmpty then "-" else " ".intercalate rs)
+    | ["vw", var, cap, depth, W, _strict, keys] => do
+        let cxx ← variant? var
+        let cap ← cap.toNat?
+        let depth ← depth.toNat?
+        let W ← W.toNat?
+        let ks ← parseBytes? keys
+        let i := (Vterm.init cap depth cxx).initStep
+        let w0 := WScreen.feed W WScreen.blank i.2
+        pure (" ".intercalate (("I" ++ wShow w0) :: vwRun W i.1 w0 ks))
+    | ["lh", var, cap, depth, maxlen, keys] => do
+        let _ ← variant? var
+        let cap ← cap.toNat?
+        let depth ← depth.toNat?
+        let maxlen ← maxlen.toNat?
+        let ks ← parseBytes? keys
+        let (_, rl) := rlRun (Readline.init cap depth) ks
+        -- only the first min(maxlen, cap + 2) bytes of the (huge) destination are materialised
+        let shown := if maxlen < cap + 2 then maxlen else cap + 2
+        let r := rl.linecpy (List.replicate shown 0xAA) maxlen
+        pure (if rl.faulted ∨ r.2.2 then "fault" else toString r.2.1 ++ " " ++ bytesHex r.1)
+    | ["vl", var, cap, depth, n, seed] => do
+        let cxx ← variant? var
+        let cap ← cap.toNat?
+        let depth ← depth.toNat?
+        let n ← n.toNat?
+        let seed ← seed.toNat?
+        let i := (Vterm.init cap depth cxx).initStep
+        let r := tokRun i.1 (fnvBytes 0xcbf29ce484222325 i.2) (lcgKeys n seed [])
+        pure (toString n ++ " " ++ hexOfNat 16 r.2.toNat)
+    | ["consts2"] => some consts2Line
+    | ["premain", keys] => do
+        let ks ← parseBytes? keys
+        if ks ≠ premainKeys then none else
+        let one (cxx : Bool) : String :=
+          let i := (Vterm.init 4 2 cxx).initStep
+          " ".intercalate (("I" ++ bytesHex i.2) :: vtRun i.1 ks)
+        pure (one false ++ " | " ++ one true)
+    | ["tw", cap, depth, echo, keys] => do
+        -- the twins side by side: the record is vterm.c's (the harness compares the two directly)
+        let cap ← cap.toNat?
+        let depth ← depth.toNat?
+        let ks ← parseBytes? keys
+        let v0 := { Vterm.init cap depth false with echo := echo ≠ "0" }
+        let i := v0.initStep
+        pure (" ".intercalate (("I" ++ bytesHex i.2) :: vtRun i.1 ks))
+    | "ts" :: cap :: ops => do
+        let cap ← cap.toNat?
+        let rs ← slRun true (Sline.init cap) ops
+        pure (if rs.isEmpty then "-" else " ".intercalate rs)
     | _ => none
   ((), r.getD "bad-op")
 
